@@ -58,9 +58,15 @@ func (w *World) entryClosure(name, sym string) {
 		rec = func(t string, s *Sort, depth int) {
 			switch s.Kind {
 			case KRef, KMap, KChan:
-				out = append(out, fmt.Sprintf("(<= %s %s)", t, a0))
+				out = append(out, fmt.Sprintf("(<= 0 %s)", t), fmt.Sprintf("(<= %s %s)", t, a0))
 			case KSlice:
-				out = append(out, fmt.Sprintf("(<= (s-arr %s) %s)", t, a0))
+				out = append(out, fmt.Sprintf("(<= 0 (s-arr %s))", t), fmt.Sprintf("(<= (s-arr %s) %s)", t, a0))
+				// type invariant of slices stored in the entry heap
+				z := w.ilit(0)
+				out = append(out, w.ile(z, "(s-off "+t+")"), w.ile(z, "(s-len "+t+")"), w.ile("(s-len "+t+")", "(s-cap "+t+")"))
+			case KIface:
+				// an interface holding a pointer holds an allocated one
+				out = append(out, fmt.Sprintf("(=> (is-ptr-dyn (i-dyn %s)) (and (<= 0 (i-val %s)) (<= (i-val %s) %s)))", t, t, t, a0))
 			case KStruct:
 				if depth < 2 {
 					for _, fi := range w.fieldsOf(s) {
